@@ -179,7 +179,6 @@ def pytorch_stft_frame_computer(
     if sig_len < frame_length // 2 + 1 or sig_len + frame_shift // 2 < frame_shift:
         # no frames (the second case needs a frame shift longer than the frame)
         return sig.new_empty((0, num_filts + int(include_energy)))
-    zero = sig.new_zeros(1)
     if not centered:
         pad_left = 0
     elif kaldi_shift:
@@ -189,6 +188,8 @@ def pytorch_stft_frame_computer(
     num_frames = max(0, (sig_len + frame_shift // 2) // frame_shift)
     total_len = (num_frames - 1) * frame_shift - pad_left + frame_length
     pad_right = max(0, total_len - sig_len)
+    # a filter without any DFT bin (very short frames) contributes zero to every frame
+    zero = sig.new_zeros(num_frames)
     if pad_left or pad_right:
         # symmetric padding
         sig = torch.cat(
@@ -335,8 +336,6 @@ class PyTorchShortTimeFourierTransformFrameComputer(torch.nn.Module):
         for i, (offset, filter) in enumerate(offsets_and_truncated_filters):
             if filter.ndim != 1:
                 raise ValueError(f"filter {i} is not a vector")
-            elif not filter.size(0):
-                raise ValueError(f"filter {i} is empty")
             check_positive(f"filter {i} offset", offset, True)
             offsets.append(offset)
             filters.append(filter)
